@@ -978,6 +978,16 @@ def unroll(fn: ast.FunctionDef, repo: Optional[Repo] = None, ci: Optional[ClassI
                 node = self.generic_visit(node)
                 # chain.from_iterable(<generator over known elements>) / list(<generator>)
                 f = norm(node.func)
+                # f(*[a, b, c])  is  f(a, b, c)
+                if any(isinstance(a, ast.Starred) and isinstance(a.value, (ast.List, ast.Tuple)) and not any(isinstance(x, ast.Starred) for x in a.value.elts)
+                       for a in node.args):
+                    args = []
+                    for a in node.args:
+                        if isinstance(a, ast.Starred) and isinstance(a.value, (ast.List, ast.Tuple)) and not any(isinstance(x, ast.Starred) for x in a.value.elts):
+                            args.extend(a.value.elts)
+                        else:
+                            args.append(a)
+                    node.args = args
                 # f(*values) with `values` a list display built in this function
                 if any(isinstance(a, ast.Starred) and isinstance(a.value, ast.Name) and a.value.id in env for a in node.args):
                     args = []
@@ -1073,6 +1083,24 @@ def unroll(fn: ast.FunctionDef, repo: Optional[Repo] = None, ci: Optional[ClassI
                     wrapped = ast.copy_location(ast.If(test=test, body=[inner], orelse=[]), st)
                     out.extend(block([wrapped], env))
                     continue
+            # --- for a, b in zip(NAMES, unpack(F, data)): the unpacked tuple gets a name first
+            if isinstance(st, ast.For) and not st.orelse and isinstance(st.iter, ast.Call) and norm(st.iter.func) == "zip" \
+                    and any(isinstance(a, ast.Call) and norm(a.func) in ("unpack", "struct.unpack") for a in st.iter.args):
+                pre_stmts = []
+                new_args = []
+                for a in st.iter.args:
+                    if isinstance(a, ast.Call) and norm(a.func) in ("unpack", "struct.unpack"):
+                        tmp = f"__unpacked{len(indexable)}"
+                        indexable.add(tmp)
+                        pre_stmts.append(ast.copy_location(ast.Assign(targets=[ast.Name(id=tmp, ctx=ast.Store())], value=a), st))
+                        new_args.append(ast.Name(id=tmp, ctx=ast.Load()))
+                    else:
+                        new_args.append(a)
+                st = copy.copy(st)
+                st.iter = ast.copy_location(ast.Call(func=st.iter.func, args=new_args, keywords=[]), st.iter)
+                for ps in pre_stmts:
+                    ast.fix_missing_locations(ps)
+                    out.append(ps)
             # --- loops over known elements
             if isinstance(st, ast.For) and not st.orelse:
                 it = expr_unroll(copy.deepcopy(st.iter), env)
@@ -1299,7 +1327,13 @@ def _module_int_constants(repo: Repo, sf: SourceFile) -> Dict[str, int]:
 
 def normalize(repo: Repo, ci: Optional[ClassInfo], fn: ast.FunctionDef, sf: Optional[SourceFile] = None, aliases: bool = False, **kw) -> ast.FunctionDef:
     """flatten, then unroll (and, on request, expand attribute-chain aliases): the form in which rules read a function."""
-    out = unroll(_flatten_only(repo, ci, fn, sf, **kw), repo, ci, sf)
+    out = _flatten_only(repo, ci, fn, sf, **kw)
+    if any(isinstance(n, ast.Attribute) and n.attr in ("pack", "unpack", "unpack_from") for n in ast.walk(out)):
+        try:
+            out = desugar_structs(repo, ci, sf, out)         # before unrolling: zip(FIELDS, CODEC.unpack(data)) is then recognised
+        except Exception:
+            pass
+    out = unroll(out, repo, ci, sf)
     # unrolling a table of (tag, encoder, attribute) rows reveals calls of private helpers: read those through as well
     if any(isinstance(n, ast.Assign) and isinstance(n.value, ast.IfExp) for n in ast.walk(out)):
         out = split_conditional_callee(out)
